@@ -84,6 +84,8 @@ type Footer struct {
 
 	incarNum uint64 // Ephemeral; to detect fast collection recreations.
 
+	fref *FileRef // Ephemeral; top-level footers only; the footer's file.
+
 	ChildFooters map[string]*Footer // Persisted; Child collections by name.
 }
 
@@ -118,12 +120,8 @@ func (s *Store) persist(higher Snapshot, persistOptions StorePersistOptions) (
 	if ss.isEmpty() {
 		// No mutations to persist, but child collections may have been
 		// created (still empty) or deleted, which takes a new footer.
-		// (Only when the store already has a data file in use: a file
-		// holding nothing but a footer would not be tracked by any segment
-		// and linger as soon as the next file is started.)
 		s.m.Lock()
-		differ := childCollectionsDiffer(s.footer, ss) &&
-			s.footer != nil && s.footer.anyMmapRef() != nil
+		differ := childCollectionsDiffer(s.footer, ss)
 		s.m.Unlock()
 		if !differ {
 			return s.Snapshot()
@@ -157,6 +155,8 @@ func (s *Store) persist(higher Snapshot, persistOptions StorePersistOptions) (
 	if err != nil {
 		return nil, err
 	}
+
+	footer.setFileRef(fref)
 
 	// Recursively persist all footers of top-level and child collections.
 	err = s.persistFooter(file, footer, persistOptions)
@@ -294,11 +294,10 @@ func (s *Store) startOrReuseFile() (fref *FileRef, file File, err error) {
 		s.footer.segmentLocs()
 		defer s.footer.DecRef()
 
-		// The segments of child collections live in the same file, so
-		// the file is in use even when the top-level collection itself
-		// has no persisted segments.
-		if mref := s.footer.anyMmapRef(); mref != nil {
-			fref := mref.fref
+		// NOTE: The footer itself knows its file, which is in use even
+		// when the top-level collection, or every collection, has no
+		// persisted segments that would refer to it.
+		if fref := s.footer.fref; fref != nil {
 			file := fref.AddRef()
 
 			return fref, file, nil
